@@ -894,3 +894,64 @@ func TestVerif_C20_ConcurrentExecutorConstruction(t *testing.T) {
 		rep.Case("C20", id, true, id, map[string]interface{}{"controllers": n, "failed": failed})
 	}
 }
+
+// C20 (hook side): "changing its spec ... starts a new one with the new configuration". A hook
+// executor built again for the same controller, hook type and URL, but with another timeout, sends
+// its requests with the NEW timeout (judged on the deadline the request carries, as in
+// TestVerif_C19_Timeout: deadline - tBefore >= timeout >= deadline - arrival).
+func TestVerif_C20_RebuiltExecutorUsesNewTimeout(t *testing.T) {
+	rep := sim.R()
+	var clock int64
+	seqs := [][]time.Duration{{300 * time.Millisecond, 5 * time.Second}, {5 * time.Second, 300 * time.Millisecond}, {2 * time.Second, 0, 700 * time.Millisecond}}
+	for si, seq := range seqs {
+		for _, ctype := range []common.ControllerType{common.CompositeController, common.DecoratorController} {
+			id := fmt.Sprintf("c20-rebuilt-executor-timeout-%s-%d", ctype, si)
+			if !sim.WantCase(id) {
+				continue
+			}
+			rep.Begin("C20", id)
+			site := sim.NewHookSite(&clock, nil)
+			var fromBefore, fromArrival time.Duration
+			var had bool
+			var tBefore time.Time
+			site.Handle("sync", func(call *sim.HookCall) sim.HookResponse {
+				dl, ok := call.Ctx.Deadline()
+				had = ok
+				if ok {
+					fromBefore, fromArrival = dl.Sub(tBefore), dl.Sub(call.Arrived)
+				}
+				return sim.HookResponse{Status: 200, Body: []byte(bodyFor("x"))}
+			})
+			url := site.URL("sync")
+			for bi, d := range seq {
+				want := d
+				wh := &v1alpha1.Webhook{URL: &url}
+				if d > 0 {
+					wh.Timeout = &metav1.Duration{Duration: d}
+				} else {
+					want = 10 * time.Second // unset: the default
+				}
+				ex, err := NewWebhookExecutor(wh, "ctl-"+id, ctype, common.SyncHook)
+				if err != nil || ex == nil {
+					rep.Violation("C20", id, "usable-webhook-rejected", fmt.Sprintf("build %d (timeout %v) rejected: %v", bi, d, err), nil)
+					break
+				}
+				var resp compositev1.CompositeHookResponse
+				had = false
+				tBefore = time.Now()
+				if stack, p := sim.Guard(func() { err = ex.Call(request("p", "x"), &resp) }); p {
+					rep.Violation("C20", id, "panic:"+sim.PanicSite(stack), stack, nil)
+					break
+				}
+				switch {
+				case !had:
+					rep.Violation("C20", id, "rebuilt-executor:no-deadline", fmt.Sprintf("build %d (timeout %v): the request carried no deadline", bi, want), nil)
+				case fromBefore < want || fromArrival > want:
+					rep.Violation("C20", id, "rebuilt-executor:timeout-of-an-earlier-build", fmt.Sprintf("build %d of the executor for the same controller, hook and URL was configured with timeout %v, its request carried a deadline between %v and %v after the call (timeouts of the builds so far: %v)", bi, want, fromArrival, fromBefore, seq[:bi+1]), map[string]interface{}{"sequence": fmt.Sprint(seq)})
+				}
+			}
+			site.Close()
+			rep.Case("C20", id, true, id, map[string]interface{}{"timeouts": fmt.Sprint(seq), "controllerType": fmt.Sprint(ctype)})
+		}
+	}
+}
